@@ -31,11 +31,28 @@ class FileEvents(object):
     def __enter__(self):
         log = self.events
 
+        class Truncating(object):
+            """A store file opened without truncation: emptying it later (truncate(0)) is the same event."""
+
+            def __init__(self, f, tag):
+                self.__dict__["_f"], self.__dict__["_tag"] = f, tag
+
+            def __getattr__(self, name):
+                return getattr(self._f, name)
+
+            def truncate(self, size=None):
+                r = self._f.truncate(size)
+                if size == 0 or (size is None and self._f.tell() == 0):
+                    log.append((len(impl.WRITE_LOG), self._tag))
+                return r
+
         def rec_open(path, mode="r", *a, **kw):
             f = open(path, mode, *a, **kw)
             tag = TRUNC.get(os.path.basename(str(path)))
             if tag and "w" in mode:
                 log.append((len(impl.WRITE_LOG), tag))
+            elif tag and "+" in mode:
+                return Truncating(f, tag)
             return f
         impl.tt.open = rec_open
         return self
@@ -96,6 +113,12 @@ def record_history(driver, nsteps, file_events=False):
             del impl.WRITE_LOG[:]
             obs = impl.observe(ix)
             after.append(_meaning(obs))
+            # the fault space is the set of prefixes of this log: it must explain the files completely (a
+            # truncation or a write that bypassed the recorded calls would make every cut meaningless)
+            if materialize(allw, len(allw)) != tuple(bytes(x) for x in ix.raw()):
+                raise impl.MachineryError("the recorded write log does not reproduce the files after request %d (%s): "
+                                          "the library changes its files by a call the harness does not record"
+                                          % (i + 1, op.get("op")))
             if "err" in obs:
                 break
         final = obs
